@@ -5,7 +5,7 @@ open IblVerif IblVerif.Proto IblVerif.Converter
 /-
 Line protocol of C04 (one history per line):
 
-    hist <np24|np21|np1> <n> <ns> <w> <ov> <bin|cbin>[@<k>] <call> <call> …      (@k: the first k shank folders pre-exist, empty)
+    hist <np24|np21|np1> <n> <ns>[h<header frames>][t] <w> <ov> <bin|cbin>[@<k>] <call> <call> …      (@k: the first k shank folders pre-exist, empty)
     call = <postCheck><compress><deleteOriginal><overwrite><onShank><reuse>:<interrupt>:<corrupt>     six 0/1 digits
            (reuse = 1: process() again on the converter object of the previous call)
     interrupt = - | s<j> | m<j> | v<k> | c<j> | d            corrupt = - | <shank>.<kp>.<kv>  (altered sample: shank, processing window, verification window)
@@ -72,6 +72,7 @@ def showResult : Result → String
   | .raised .assertion => "raise:assertion"
   | .raised .noOriginal => "raise:noOriginal"
   | .raised .outOfScope => "raise:outOfScope"
+  | .raised .valueError => "raise:valueError"
 
 def showObj : Option Obj → String
   | none => "-"
@@ -92,12 +93,17 @@ def step (t : List String) : String :=
     let of := op.headD ""
     let o0 : Option Orig := if of = "bin" then some .bin else if of = "cbin" then some .cbin else none
     let pre : Option Nat := match op with | [_] => some 0 | [_, k] => k.toNat? | _ => none
-    match k, nat? n, nat? ns, nat? w, nat? ov, o0, pre, calls.mapM call? with
-    | some k, some n, some ns, some w, some ov, some o0, some pre, some cs =>
+    -- ns token: <frames on disk>[h<frames announced by the header>][t]   (t: trailing partial frame)
+    let trail := ns.endsWith "t"
+    let nsp := (if trail then (ns.dropEnd 1).toString else ns).splitOn "h"
+    let nsd : Option Nat := nsp.head?.bind (·.toNat?)
+    let hdr : Option Nat := match nsp with | [a] => a.toNat? | [_, b] => b.toNat? | _ => none
+    match k, nat? n, nsd, hdr, nat? w, nat? ov, o0, pre, calls.mapM call? with
+    | some k, some n, some ns, some hdr, some w, some ov, some o0, some pre, some cs =>
       if w ≤ ov then "err diverges" else
-      let cfg : Cfg := { kind := k, n := n, ns := ns, w := w, ov := ov, c := 7 }
+      let cfg : Cfg := { kind := k, n := n, ns := ns, w := w, ov := ov, c := 7, hdrNs := hdr, trailing := trail }
       "ok " ++ " ".intercalate (history cfg (St.start (freshWith o0 pre)) cs)
-    | _, _, _, _, _, _, _, _ => "bad-op"
+    | _, _, _, _, _, _, _, _, _ => "bad-op"
   | ["counts", ns, w, ov] =>
     match nat? ns, nat? w, nat? ov with
     | some ns, some w, some ov =>
